@@ -1139,6 +1139,15 @@ def builtin_table(ctx):
             if isinstance(x, tuple) and x[0] == 'agg' and x[1].endswith('ItemStateResolved'):
                 isr = dict(x[2])
     okisr = isr is not None and is_call_(isr['alignment'], 'max') and any(isinstance(x, tuple) and x[0] == 'payload' for x in walk(isr['size']))
+    # ... registered as Predefined (never emitted), public
+    cats = []
+    for c in f.calls(lambda r: r['path'] and r['path'].endswith('SemanticState::add_item')):
+        e = strip(ctor_norm(P, expand(f, f.expr_of_operand(c['term']['args'][1]))))
+        if e[0] == 'agg' and e[1].endswith('ItemDefinition'):
+            d_ = dict(e[2])
+            cats.append((show(strip(d_.get('category', ('x',))))[:40], show(strip(d_.get('visibility', ('x',))))[:40]))
+    okcat = len(cats) == 1 and 'ItemCategory::Predefined' in cats[0][0] and 'Visibility::Public' in cats[0][1]
+    ctx.ob(['C14', 'C13'], 'R-SLP', 'builtins|registered-as-predefined', okcat, 'built-in types are registered as Predefined (never emitted) and public: %s' % cats, loc(f.span))
     ctx.ob(['C02'], 'R-EXPR', 'builtins|alignment-formula', okal and okisr, 'a built-in\'s alignment is max(size, 1) and both go unchanged into its registry entry', loc(f.span))
     lay = layouts()
     if not lay:
